@@ -55,11 +55,29 @@ def generate(info):
     w('static void a_done(int) {}')
     w('static void hook() { jitter(); }')
     w('#endif')
+    # lock-granularity scheduling points: interpose the pthread mutex functions (scheduler build only)
+    w('#ifdef VERIF_SCHED')
+    w('#include <dlfcn.h>\n#include <pthread.h>')
+    w('extern "C" {')
+    w('static int (*vs_real_lock)(pthread_mutex_t*) = nullptr; static int (*vs_real_unlock)(pthread_mutex_t*) = nullptr;')
+    w('__attribute__((constructor)) static void vs_resolve() { '
+      'vs_real_lock = (int (*)(pthread_mutex_t*))dlsym(RTLD_NEXT, "pthread_mutex_lock"); '
+      'vs_real_unlock = (int (*)(pthread_mutex_t*))dlsym(RTLD_NEXT, "pthread_mutex_unlock"); }')
+    w('int pthread_mutex_lock(pthread_mutex_t* m) { if (!vs_real_lock) vs_resolve(); '
+      'if (vs::self >= 0 && vs::hooking == 0 && vs::S().wants(m)) { ++vs::hooking; vs::S().before_lock(vs::self, m); --vs::hooking; } '
+      'return vs_real_lock(m); }')
+    w('int pthread_mutex_unlock(pthread_mutex_t* m) { if (!vs_real_unlock) vs_resolve(); int rc = vs_real_unlock(m); '
+      'if (vs::self >= 0 && vs::hooking == 0 && vs::S().lock_points && m != (pthread_mutex_t*)vs::S().m.native_handle() && !vs::S().ignored.count(m)) '
+      '{ ++vs::hooking; vs::S().after_unlock(m); --vs::hooking; } return rc; }')
+    w('}')
+    w('#endif')
     w('static void T(const std::string& what, const std::string& who, long v = 0) { '
       'vf::emit("{\\"k\\":\\"t\\",\\"what\\":\\"" + what + "\\",\\"who\\":\\"" + who + "\\",\\"v\\":" + std::to_string(v) + "}"); }')
     w('static int run_one(int argc, char** argv) {')
     w('  std::string sched = argc > 1 ? argv[1] : "s:"; std::string progs = argc > 2 ? argv[2] : "1.0;1.0;1";')
     w('#ifdef VERIF_SCHED')
+    w('  vs::S().ignore_mutex(vf::S().out_m.native_handle()); vs::S().ignore_mutex(vf::S().forced_m.native_handle()); '
+      'vs::S().ignore_mutex(vf::S().react_m.native_handle());')
     w('  vs::S().parse(sched);')
     w('#else')
     w('  { std::stringstream ss(sched.size() > 2 ? sched.substr(2) : ""); std::string it; '
